@@ -1039,6 +1039,7 @@ func RepeatCR3(o RepeatOpts) []byte {
 // 2: a JPEG with n tiny XMP APP1 segments
 // 3: an XMP packet with n date properties whose value is a date followed by junk bytes
 // 4: a CR3 with n minimal CMT boxes; 5: a JPEG with n minimal Exif segments; 6: an XMP array of n items
+// 9: an AVIF meta box with n iprp/iref boxes too short for a child; 10: an XMP id/date/number property with n items
 func ManyTiny(kind, sub, n, junk int) []byte {
 	switch kind {
 	case 0:
@@ -1102,6 +1103,28 @@ func ManyTiny(kind, sub, n, junk int) []byte {
 		out := Box("ftyp", []byte("avif"), be32(0), []byte("avifmif1"))
 		out = append(out, fullBox("meta", 0, 0, ilocs)...)
 		return append(out, Box("mdat", make([]byte, 64))...)
+	case 9:
+		// an AVIF-branded file (read by the box reader) whose meta box holds n iprp (sub 0, 2) or
+		// iref (1, 3) boxes with 8 (sub 0, 1) or 12 payload bytes: too short for a child's header
+		typ := []string{"iprp", "iref"}[sub%2]
+		one := Box(typ, make([]byte, 8+4*(sub/2%2)))
+		inner := make([]byte, 0, len(one)*n)
+		for i := 0; i < n; i++ {
+			inner = append(inner, one...)
+		}
+		out := Box("ftyp", []byte("avif"), be32(0), []byte("avifmif1"))
+		out = append(out, fullBox("meta", 0, 0, inner)...)
+		return append(out, Box("mdat", make([]byte, 64))...)
+	case 10:
+		// an XMP packet in which one property that is parsed (an id, a date, a number) holds an array
+		// of n items that are not of its kind, written in full or as compactly as the reader accepts
+		prop := []string{"xmpMM:DocumentID", "xmp:CreateDate", "xmpMM:InstanceID", "exif:DateTimeOriginal", "xmp:Rating", "xmpMM:OriginalDocumentID", "xmp:ModifyDate", "aux:ApproximateFocusDistance"}[sub%8]
+		item := []string{"<rdf:li>x</rdf:li>", "<rdf:li>x", "<:>x", "<rdf:li>2020-01-02T03:04:0</rdf:li>"}[junk%4]
+		out := []byte("<x:xmpmeta xmlns:x='adobe:ns:meta/'><rdf:RDF xmlns:rdf='http://www.w3.org/1999/02/22-rdf-syntax-ns#'><rdf:Description rdf:about='' xmlns:xmp='http://ns.adobe.com/xap/1.0/' xmlns:xmpMM='http://ns.adobe.com/xap/1.0/mm/' xmlns:exif='http://ns.adobe.com/exif/1.0/' xmlns:aux='http://ns.adobe.com/exif/1.0/aux/'><" + prop + "><rdf:Bag>")
+		for i := 0; i < n; i++ {
+			out = append(out, item...)
+		}
+		return append(out, "</rdf:Bag></"+prop+"></rdf:Description></rdf:RDF></x:xmpmeta>"...)
 	case 4:
 		// a CR3 whose Canon uuid box holds n minimal CMT boxes (a TIFF header and an empty directory)
 		one := Box("CMT"+string(rune('1'+sub%4)), []byte("II*\x00\x08\x00\x00\x00\x00\x00\x00\x00\x00\x00"))
